@@ -893,4 +893,62 @@ theorem collect_no_panic (rs : List LoadResult) (have_ : List Bytes) (res : List
 example (e : Event) : collect [⟨.signatureErr, some e⟩] [] [] = .ok ([e.eventID], [e]) := by
   simp [collect]
 
+/-- `backfill_sound`: every event the RequestBackfill loop hands on was collected from the LoadAndVerify results
+    of some answering server, where it was classified `ok` or `signatureErr` (`empty`: a slot never written —
+    excluded by `load_classification`).  With `load_classification` (the class is the FIRST failing check): a
+    returned event either failed its signature check or passed the auth-chain and the state-at-event check —
+    the clause the `fedcheck.backfill_props` op evaluates on the implementation's answer. -/
+theorem backfill_sound {P} (O : Oracles P) (prov : EventProvider) (sp : StateProvider) (caFuel fuel : Nat)
+    (order : List Event → List Event) (limit : Nat) (servers : List ServerAns) (i : Nat) (have_ : List Bytes)
+    (res0 : List Event) (lastErr : Bool) (log : Log) (res : List Event) (le : Bool) (log' : Log)
+    (h : backfillLoop O prov sp caFuel fuel order limit servers i have_ res0 lastErr log = (.done res le, log'))
+    (e : Event) (he : e ∈ res) :
+    e ∈ res0 ∨ ∃ raw, some raw ∈ servers ∧ ∃ lg rs lg', loadAndVerify O prov sp caFuel fuel order raw lg = some (rs, lg') ∧
+      ∃ r ∈ rs, r.event = some e ∧ (r.cls = .ok ∨ r.cls = .signatureErr ∨ r.cls = .empty) := by
+  induction servers generalizing i have_ res0 lastErr log with
+  | nil =>
+    simp only [backfillLoop, Prod.mk.injEq, BFOut.done.injEq] at h
+    rw [← h.1.1] at he
+    exact Or.inl he
+  | cons s rest ih =>
+    unfold backfillLoop at h
+    split at h
+    · simp only [Prod.mk.injEq, BFOut.done.injEq] at h
+      rw [← h.1.1] at he
+      exact Or.inl he
+    · cases s with
+      | none =>
+        simp only at h
+        rcases ih _ _ _ _ _ h with h1 | ⟨raw, hm, hx⟩
+        · exact Or.inl h1
+        · exact Or.inr ⟨raw, List.mem_cons_of_mem _ hm, hx⟩
+      | some raw =>
+        simp only at h
+        cases hl : loadAndVerify O prov sp caFuel fuel order raw (log ++ [.backfill i]) with
+        | none => rw [hl] at h; simp at h
+        | some x =>
+          obtain ⟨rs, log2⟩ := x
+          rw [hl] at h
+          simp only at h
+          cases hc : collect rs have_ res0 with
+          | error site => rw [hc] at h; simp at h
+          | ok y =>
+            obtain ⟨have', res'⟩ := y
+            rw [hc] at h
+            simp only at h
+            rcases ih _ _ _ _ _ h with h1 | ⟨raw', hm, hx⟩
+            · rcases collect_mem rs have_ res0 have' res' hc e h1 with h2 | ⟨r, hr, h3⟩
+              · exact Or.inl h2
+              · exact Or.inr ⟨raw, List.mem_cons_self, _, rs, log2, hl, r, hr, h3⟩
+            · exact Or.inr ⟨raw', List.mem_cons_of_mem _ hm, hx⟩
+
+/-- the hypothesis of `backfill_sound` is satisfiable (whatever the oracles): a server that fails and one whose
+    only PDU does not parse -/
+example {P} (O : Oracles P) (prov : EventProvider) (sp : StateProvider) :
+    backfillLoop O prov sp 2 10 id 5 [none, some [.bad]] 0 [] [] false [] = (.done [] true, [.backfill 0, .backfill 1]) := by
+  simp [backfillLoop, loadAndVerify, parsedClean, parsedCleanFrom, parseErrCount, parseErrCountFrom, loadLoop, layout, collect, parseErrResult]
+
+/-- the oracles the driver runs with a per-event signature verdict satisfy the hypothesis of the exactness theorems -/
+theorem authOraclesBy_addIdem (bad : Event → Bool) : AddIdem (authOraclesBy bad) := fun p a => padd_idem p a
+
 end V.C14
